@@ -197,7 +197,8 @@ func (s *FileStorage) Lock(ctx context.Context, name string) error {
 		if err == nil {
 			err2 := json.NewDecoder(f).Decode(&meta)
 			f.Close()
-			if errors.Is(err2, io.EOF) {
+			if err2 != nil {
+				// empty (io.EOF), truncated or otherwise undecodable lockfile
 				emptyCount++
 				if emptyCount < 8 {
 					// wait for brief time and retry; could be that the file is in the process
@@ -214,9 +215,8 @@ func (s *FileStorage) Lock(ctx context.Context, name string) error {
 					// caused them to be unable to fully acquire or retain the lock, therefore
 					// we should treat it as if the lockfile did not exist
 					log.Printf("[INFO][%s] %s: Empty lockfile (%v) - likely previous process crashed or storage medium failure; treating as stale", s, filename, err2)
+					meta = lockMeta{} // nothing a failed decode left behind may make the file look fresh
 				}
-			} else if err2 != nil {
-				return fmt.Errorf("decoding lockfile contents: %w", err2)
 			}
 		}
 
